@@ -106,9 +106,9 @@ theorem Shrinks.trans {a b c : St} (h1 : Shrinks a b) (h2 : Shrinks b c) : Shrin
 theorem shrinks_setSp {s : St} (e : Nat) (sp : Space) (hw : WinOk s) : Shrinks s (setSp s e sp) := by
   unfold Shrinks WinOk at *; simp; omega
 
-theorem detectLostLa_win {s s' : St} {e ld la : Nat} {lost : List Nat}
-    (h : detectLostLa s e ld la = .ok (s', lost)) (hw : WinOk s) : Shrinks s s' := by
-  unfold detectLostLa at h
+theorem detectLost_win {s s' : St} {e ld : Nat} {lost : List Nat} (h : detectLost s e ld = .ok (s', lost))
+    (hw : WinOk s) : Shrinks s s' := by
+  unfold detectLost at h
   simp only at h
   split at h
   · cases h; exact shrinks_setSp _ _ hw
@@ -117,13 +117,6 @@ theorem detectLostLa_win {s s' : St} {e ld la : Nat} {lost : List Nat}
     · rename_i s2 h2
       cases h
       exact (shrinks_setSp _ _ hw).trans (onPacketsLost_win h2 (shrinks_setSp _ _ hw).1)
-
-theorem detectLost_win {s s' : St} {e ld : Nat} {lost : List Nat} (h : detectLost s e ld = .ok (s', lost))
-    (hw : WinOk s) : Shrinks s s' := by
-  unfold detectLost at h
-  split at h
-  · cases h; exact shrinks_setSp _ _ hw
-  · exact detectLostLa_win h hw
 
 theorem setTimer_win {s s' : St} {a b : Nat} (h : setTimer s a b = .ok s') (hw : WinOk s) : Shrinks s s' := by
   rw [setTimer_eq h]; exact ⟨hw, rfl, rfl, Nat.le_refl _⟩
@@ -181,8 +174,8 @@ theorem discardEpoch_win {s s' : St} {e a b : Nat} (h : discardEpoch s e a b = .
     obtain ⟨bytes, _, h2⟩ := h
     exact (discardReset_win e bytes hw).trans (setTimer_win h2 (discardReset_win e bytes hw).1)
 
-theorem sentInflight_win {s : St} (e : Nat) (elic : Bool) (size : Nat) (hw : WinOk s) :
-    Shrinks s (sentInflight s e elic size) := by
+theorem sentInflight_win {s : St} (ld e : Nat) (elic : Bool) (size : Nat) (hw : WinOk s) :
+    Shrinks s (sentInflight s ld e elic size) := by
   unfold sentInflight
   apply shrinks_fields hw <;> simp
 
@@ -193,18 +186,15 @@ theorem onPktSent_win {s s' : St} {i : Inp} {e pn : Nat} {elic infl : Bool} {siz
     (h : onPktSent s i e pn elic infl size = .ok s') (hw : WinOk s) : Shrinks s s' := by
   unfold onPktSent at h
   simp only [ebind_ok] at h
-  obtain ⟨s3, h1, h2⟩ := h
-  have k3 : Shrinks s s3 := by
-    cases infl
-    · simp only [Bool.false_eq_true, if_false] at h1
-      cases h1; exact pushPkt_win _ _ hw
-    · simp only [if_true] at h1
-      have k1 := sentInflight_win e elic size hw
-      have k2 := k1.trans (pushPkt_win e { pn := pn, ts := s.now, elic := elic, cc := true, size := size, st := PSt.I } k1.1)
-      exact k2.trans (setTimer_win h1 k2.1)
+  obtain ⟨s1, h1, h2⟩ := h
+  have k1 : Shrinks s s1 := by
+    split at h1
+    · exact (sentInflight_win _ _ _ _ hw).trans (setTimer_win h1 (sentInflight_win _ _ _ _ hw).1)
+    · cases h1; exact Shrinks.refl hw
+  have k2 := pushPkt_win e { pn := pn, ts := s.now, elic := elic, cc := infl, size := size, st := PSt.I } k1.1
   split at h2
-  · exact k3.trans (discardEpoch_win h2 k3.1)
-  · cases h2; exact k3
+  · exact k1.trans (k2.trans (discardEpoch_win h2 k2.1))
+  · cases h2; exact k1.trans k2
 
 theorem doTick_win {s s' : St} {i : Inp} {l : List (Nat × List Nat)} {t : Option Nat}
     (h : doTick s i = .ok (s', l, t)) (hw : WinOk s) : Shrinks s s' := by
@@ -519,9 +509,9 @@ theorem onAckRcvd_grows {s s' : St} {i : Inp} {e : Nat} {a : Ack} {l : List (Nat
 
 /-! ### loss detection marks only in-flight packets, by one of the two thresholds -/
 
-theorem lossWalk_lost (T ld L la : Nat) (l : List Pkt) : ∀ (k : Nat) (lt : Option Nat),
-    ∀ x ∈ (lossWalk T ld L la l k lt).2.1, ∃ p ∈ l, p.st = PSt.I ∧ x.2 = { p with st := PSt.R } ∧
-      (p.ts < T ∨ x.1 + packetThreshold ≤ L) ∧ p.pn ≤ la := by
+theorem lossWalk_lost (T ld L : Nat) (l : List Pkt) : ∀ (k : Nat) (lt : Option Nat),
+    ∀ x ∈ (lossWalk T ld L l k lt).2.1, ∃ p ∈ l, p.st = PSt.I ∧ x.2 = { p with st := PSt.R } ∧
+      (p.ts < T ∨ x.1 + packetThreshold ≤ L) := by
   induction l with
   | nil => intro k lt x hx; simp [lossWalk] at hx
   | cons p ps ih =>
@@ -529,16 +519,15 @@ theorem lossWalk_lost (T ld L la : Nat) (l : List Pkt) : ∀ (k : Nat) (lt : Opt
     unfold lossWalk at hx
     split at hx
     · rename_i hI
-      simp only [Bool.and_eq_true, beq_iff_eq, decide_eq_true_eq] at hI
       split at hx
       · rename_i hc
         have ih' := ih (k + 1) lt
-        generalize (lossWalk T ld L la ps (k + 1) lt) = w at *
+        generalize (lossWalk T ld L ps (k + 1) lt) = w at *
         obtain ⟨ps', lost, lt'⟩ := w
         simp only [List.mem_cons] at hx
         rcases hx with hx | hx
         · subst hx
-          refine ⟨p, List.mem_cons_self, hI.1, rfl, ?_, hI.2⟩
+          refine ⟨p, List.mem_cons_self, by simpa using hI, rfl, ?_⟩
           simp only [Bool.or_eq_true, decide_eq_true_eq] at hc
           rcases hc with hc | hc
           · exact Or.inl hc
@@ -549,13 +538,13 @@ theorem lossWalk_lost (T ld L la : Nat) (l : List Pkt) : ∀ (k : Nat) (lt : Opt
         obtain ⟨q, hq, hq2⟩ := ih _ _ x hx
         exact ⟨q, List.mem_cons_of_mem _ hq, hq2⟩
     · have ih' := ih (k + 1) lt
-      generalize (lossWalk T ld L la ps (k + 1) lt) = w at *
+      generalize (lossWalk T ld L ps (k + 1) lt) = w at *
       obtain ⟨ps', lost, lt'⟩ := w
       obtain ⟨q, hq, hq2⟩ := ih' x hx
       exact ⟨q, List.mem_cons_of_mem _ hq, hq2⟩
 
-theorem lossWalk_keeps (T ld L la : Nat) (l : List Pkt) : ∀ (k : Nat) (lt : Option Nat) (q : Pkt),
-    q ∈ l → q.st ≠ PSt.I → q ∈ (lossWalk T ld L la l k lt).1 := by
+theorem lossWalk_keeps (T ld L : Nat) (l : List Pkt) : ∀ (k : Nat) (lt : Option Nat) (q : Pkt),
+    q ∈ l → q.st ≠ PSt.I → q ∈ (lossWalk T ld L l k lt).1 := by
   induction l with
   | nil => intro k lt q hq; simp at hq
   | cons p ps ih =>
@@ -564,24 +553,23 @@ theorem lossWalk_keeps (T ld L la : Nat) (l : List Pkt) : ∀ (k : Nat) (lt : Op
     simp only [List.mem_cons] at hq
     split
     · rename_i hI
-      simp only [Bool.and_eq_true, beq_iff_eq, decide_eq_true_eq] at hI
       have hpq : q ≠ p := by
-        intro h; subst h; exact hst hI.1
+        intro h; subst h; exact hst (by simpa using hI)
       have hq' : q ∈ ps := by rcases hq with h | h; exact absurd h hpq; exact h
       split
       · have ih' := ih (k + 1) lt q hq' hst
-        generalize (lossWalk T ld L la ps (k + 1) lt) = w at *
+        generalize (lossWalk T ld L ps (k + 1) lt) = w at *
         obtain ⟨ps', lost, lt'⟩ := w
         exact List.mem_cons_of_mem _ ih'
       · simp only
         exact List.mem_cons_of_mem _ (ih _ _ q hq' hst)
     · rcases hq with h | h
       · subst h
-        generalize (lossWalk T ld L la ps (k + 1) lt) = w
+        generalize (lossWalk T ld L ps (k + 1) lt) = w
         obtain ⟨ps', lost, lt'⟩ := w
         exact List.mem_cons_self
       · have ih' := ih (k + 1) lt q h hst
-        generalize (lossWalk T ld L la ps (k + 1) lt) = w at *
+        generalize (lossWalk T ld L ps (k + 1) lt) = w at *
         obtain ⟨ps', lost, lt'⟩ := w
         exact List.mem_cons_of_mem _ ih'
 
